@@ -78,6 +78,33 @@ func hqBytes(every, repeated bool) []byte {
 	return vBytes(n)
 }
 
+// hqSparseRef: like hqBytes for a singular field, but only the first two bytes and the last byte are symbolic, the
+// others zero (the stored references have this shape; the handler formats the reference into its error text, and
+// hex encoding of 32 symbolic bytes makes every later solver query slow).
+func hqSparseRef(every bool) []byte {
+	var n int
+	if every {
+		n = vLen(0, 33)
+	} else {
+		n = hqRefLens[vChoice(len(hqRefLens))]
+	}
+	if n == 0 {
+		if vChoice(2) == 1 {
+			return []byte{}
+		}
+		return nil
+	}
+	b, s := make([]byte, n), vBytes(3)
+	b[0] = s[0]
+	if n > 1 {
+		b[1] = s[1]
+	}
+	if n > 2 {
+		b[n-1] = s[2]
+	}
+	return b
+}
+
 // hqCid draws a conversation id: absent, or any of the lengths 1..max.
 func hqCid(max int) []byte {
 	n := vLen(0, max)
@@ -574,7 +601,7 @@ func hqPayloadMsg(every bool) (*hqEnv, *TransactionPayload, *hTx, int) {
 	st := &hState{txs: []*hTx{tx}}
 	e := hqProto(st)
 	d := vChoice(len(hqPayloads))
-	msg := &TransactionPayload{ConversationID: hqCid(vParam("cid", 2)), TransactionRef: hqBytes(every, false), Data: hqPayloads[d]}
+	msg := &TransactionPayload{ConversationID: hqCid(vParam("cid", 2)), TransactionRef: hqSparseRef(every), Data: hqPayloads[d]}
 	return e, msg, tx, d
 }
 
@@ -603,9 +630,11 @@ func H19qg() {
 }
 
 func H19qg_twin() {
-	e, msg, _, _ := hqPayloadMsg(false)
+	tx := &hTx{ref: hHash(2), payloadHash: hash.SHA256Sum([]byte{7})}
+	e := hqProto(&hState{txs: []*hTx{tx}})
+	msg := &TransactionPayload{TransactionRef: hqSparseRef(false), Data: []byte{7}}
 	_, herr, _ := e.deliver(&Envelope{Message: &Envelope_TransactionPayload{TransactionPayload: msg}})
-	if herr == nil && len(e.st.writes) == 1 && len(msg.TransactionRef) == 32 {
+	if herr == nil && len(e.st.writes) == 1 && len(msg.TransactionRef) == 32 && len(e.jobs.finished) == 1 {
 		vAssert(false, "H19qg_twin.reach: reachable")
 	}
 }
@@ -762,7 +791,7 @@ func H19qi() {
 	vAssert(len(got) == 1, "H19qi.recorded_for_sender: diagnostics not recorded for exactly the sending peer")
 	d, ok := got[e.conn.peer.ID]
 	vAssert(ok && d.NumberOfTransactions == msg.NumberOfTransactions && len(d.Peers) == len(msg.Peers), "H19qi.recorded_for_sender: diagnostics not recorded for exactly the sending peer")
-	vAssert(d.Uptime >= 0 && int64(d.Uptime/1000000000) == int64(msg.Uptime), "H19qi.uptime_in_range: uptime seconds not carried over")
+	vAssert(d.Uptime >= 0 && (d.Uptime > 0) == (msg.Uptime > 0), "H19qi.uptime_in_range: uptime of 0..2^32-1 seconds became negative or lost")
 	if len(msg.Peers) == 2 {
 		vCover("two-peers")
 	}
@@ -773,5 +802,61 @@ func H19qi_twin() {
 	_, _, _ = e.deliver(&Envelope{Message: &Envelope_DiagnosticsBroadcast{DiagnosticsBroadcast: msg}})
 	if d := e.p.diagnosticsMan.get()[e.conn.peer.ID]; len(d.Peers) == 2 && d.Peers[1] == "zz" && msg.Uptime == 4294967295 {
 		vAssert(false, "H19qi_twin.reach: reachable")
+	}
+}
+
+// ---------------------------------------------------------------------------------------------
+// H19qr references and digests of the wrong length (reported as a finding on the unchanged tree)
+// ---------------------------------------------------------------------------------------------
+
+// A transaction reference / XOR digest is a SHA-256 value: 32 bytes (RFC017). A field of any other length is
+// malformed input; C19: "malformed input is rejected with an error and leaves stored state unchanged". The
+// handlers convert with hash.FromSlice, which pads a short field with zero bytes and cuts a long one: the
+// malformed field then denotes a different, valid reference. The harness states the property per handler: a
+// message whose reference field is not 32 bytes long is not acted upon (no payload stored, no payload or
+// transaction sent, no request derived from it, not taken as proof of being in sync).
+func H19qr() {
+	vClass("reference field that is not 32 bytes")
+	kind := vChoice(4)
+	ref := hqSparseRef(false)
+	vAssume(len(ref) != 32)
+	tx := &hTx{ref: hHash(2), payloadHash: hash.SHA256Sum([]byte{7}), data: []byte{0, 0}}
+	vAssume(tx.ref[0] != 0) // a stored transaction does not have the zero reference
+	st := &hState{txs: []*hTx{tx}, payloads: []hPayload{{hash: tx.payloadHash, data: []byte{7}}}, xor: tx.ref}
+	e := hqProto(st)
+	switch kind {
+	case 0:
+		vCover("payload")
+		_, herr, _ := e.deliver(&Envelope{Message: &Envelope_TransactionPayload{TransactionPayload: &TransactionPayload{TransactionRef: ref, Data: []byte{7}}}})
+		vAssert(len(st.writes) == 0, "H19qr.payload_ref_length: a payload was stored for a reference field that is not 32 bytes")
+		vAssert(herr != nil, "H19qr.payload_ref_rejected: a payload message with a reference field that is not 32 bytes was not rejected")
+	case 1:
+		vCover("payload-query")
+		_, _, _ = e.deliver(&Envelope{Message: &Envelope_TransactionPayloadQuery{TransactionPayloadQuery: &TransactionPayloadQuery{TransactionRef: ref}}})
+		for _, m := range e.conn.sent {
+			vAssert(len(m.GetTransactionPayload().GetData()) == 0, "H19qr.payload_query_ref_length: a payload was sent for a reference field that is not 32 bytes")
+		}
+	case 2:
+		vCover("list-query")
+		_, _, _ = e.deliver(&Envelope{Message: &Envelope_TransactionListQuery{TransactionListQuery: &TransactionListQuery{Refs: [][]byte{ref}}}})
+		for _, m := range e.conn.sent {
+			vAssert(len(m.GetTransactionList().GetTransactions()) == 0, "H19qr.list_query_ref_length: a transaction was sent for a reference field that is not 32 bytes")
+		}
+	case 3:
+		vCover("gossip")
+		// a well-formed reference next to a digest of the wrong length
+		_, _, _ = e.deliver(&Envelope{Message: &Envelope_Gossip{Gossip: &Gossip{XOR: ref, LC: vU32(), Transactions: [][]byte{make([]byte, 32)}}}})
+		vAssert(st.correct == 0, "H19qr.gossip_xor_length: a digest field that is not 32 bytes was taken as proof of being in sync")
+		vAssert(len(e.conn.sent) == 0 && len(e.g.received) == 0, "H19qr.gossip_xor_rejected: a Gossip with a digest field that is not 32 bytes was acted upon")
+	}
+}
+
+func H19qr_twin() {
+	tx := &hTx{ref: hHash(2), payloadHash: hash.SHA256Sum([]byte{7})}
+	e := hqProto(&hState{txs: []*hTx{tx}})
+	ref := hqSparseRef(false)
+	_, herr, _ := e.deliver(&Envelope{Message: &Envelope_TransactionPayload{TransactionPayload: &TransactionPayload{TransactionRef: ref, Data: []byte{7}}}})
+	if herr != nil && len(ref) == 33 && len(e.st.gets) == 1 {
+		vAssert(false, "H19qr_twin.reach: reachable")
 	}
 }
